@@ -25,6 +25,7 @@ func init() {
 			"V7 alias completeness: once a file is known to exist every returning path of getLogicalFileNames consults filepath.EvalSymlinks and appends its result, " +
 			"V8 whole-call references: LazyArgumentMap.jsonPath maps the empty output id to the whole outs map (or every call site excludes the empty path). " +
 			"V9 the type-less projection jsonPath applies the remaining path to every entry of a decoded object (typed map) as it does to every array element; V7c the walked side of anyOverlap is a getLogicalFileNames result on all paths. " +
+			"V5 as a path rule: every path (every iteration) through the code that registers top-level outputs and retains inserts the nil consumer, also for arguments that already have consumers. " +
 			"NOT decided: whether the names found are every alias of a file, anyOverlap (file-system values).",
 		Assumptions: commonAssumptions,
 	}
